@@ -26,8 +26,11 @@ claimed = {
  "C13": dict(level="other", text="Bounded symbolic execution of IsEqual/Clone/Display of both value libraries and of the to_json/parse_json/cast chain; laws are asserted as SMT formulas over values of one static type whose payloads, lengths and key sets are solver variables.",
              note="Type shapes depth 1 (quick) / 2 within a budget (thorough); lists <= 2 elements, keys from {a,b}; strings from 2 constants (unicode strings are outside), floats assumed non-NaN (and finite for JSON); JSON text is modelled by the round-trip contract of encoding/json (numbers come back as float64); object display order is C14's subject. Trusted: go/ssa, gosym, z3 (+ one-shot z3/cvc5 portfolio for FP conversion queries), reference cvSameContent.",
              technique="bounded symbolic execution (go/ssa) + SMT (z3/cvc5) of algebraic laws", design="§2 C13"),
+ "C07": dict(level="other", text="Bounded symbolic execution of the real Pratt parser with operator token kinds as solver variables (stub lexer), bracket structure compared with a reference splitter written from the operator table of the property statement; prefix/postfix/as/layout variants through the real lexer, exhaustive over selectors.",
+             note="Operator sequences of 2 (quick) / 3 (thorough) binary operators over all 31 infix+assignment tokens; one prefix and one postfix per operand; `..` and statement-level layout outside; assignments with a non-place left-hand side may be rejected (accepted behaviour). Trusted: go/ssa, gosym, z3, reference splitter verifRefShape.",
+             technique="bounded symbolic execution (go/ssa) + SMT (z3) vs reference precedence splitter", design="§2 C07"),
  "C05": dict(level="other", text="Bounded symbolic execution of lexer (and parser/analyzer as they are added) with Go run-time panics and step-bound overruns as path outcomes; within the stated bounds no input makes the code panic or fail to make progress.",
-             note="Currently: lexer step totality/progress on windows of K runes (quick 3 / thorough 5). Trusted: go/ssa, gosym, z3.",
+             note="Lexer step totality/progress on windows of K runes (quick 3 / thorough 5); Parser.Parse over every sequence of <= L tokens with symbolic kinds and an optional (sticky or consumed) lexer error, L = 3 quick / 5 thorough, step bound 300k as termination obligation (token kind formatting stubbed). Analyzer totality on edited programs: see evidence. 64 KiB / depth-1000 inputs are not executed (outside). Trusted: go/ssa, gosym, z3.",
              technique="bounded symbolic execution (go/ssa) + SMT (z3), panic/bound outcomes", design="§2 C05"),
 }
 na = {}
